@@ -573,13 +573,14 @@ class Walker:
 
     def s_Return(self, s, st):
         callee = self.inline_target(s.value) if s.value is not None else None
-        if callee is not None and self.inline_depth == 0:
+        if callee is not None:
             outs = []
             for s2, val in self.inline_call(s.value, callee, st):
                 if val == ("raise",):
                     outs.append((s2, "raise", None))
                     continue
-                self.emit("ret", s, s2, value=val, implicit=False)
+                if self.inline_depth == 0:
+                    self.emit("ret", s, s2, value=val, implicit=False)
                 outs.append((s2, "return", val))
             return outs
         v = self.ev(s.value, st) if s.value is not None else None
@@ -634,8 +635,8 @@ class Walker:
         env = {}
         for p, a in zip(callee.params, args):
             ty = callee.ptypes.get(p)
-            if isinstance(a, Num) and ty is not None and ty.kind in ("uint", "int") and not ty.is_array:
-                # a typed scalar parameter truncates: transparent only if provably in range
+            if isinstance(a, Num) and ty is not None and ty.kind in ("uint", "int") and not ty.is_array and not (a.ty is not None and a.ty == ty):
+                # a typed scalar parameter truncates: transparent only if provably in range (or the value already has that very type)
                 lo, hi = ty.range()
                 if not (self.P.prove_le0(a.lin - hi, st.facts) and self.P.prove_le0(Lin.const(lo) - a.lin, st.facts)):
                     a = Num(Lin.term(self.fresh("cast", repr(ty), ty.range())), ty=ty)
@@ -1349,10 +1350,13 @@ class Walker:
         if not (isinstance(a, Num) and isinstance(b, Num)):
             return Opaque(("binop", type(op).__name__, repr(_vkey(a)), repr(_vkey(b))), node)
         fl = a.isfloat or b.isfloat
+        # two operands of one unsigned machine type give that type again under Numba (the walker models the value as an integer;
+        # the type tag only says that handing it to a parameter of that very type converts nothing)
+        same_u = a.ty if (a.ty is not None and a.ty == b.ty and a.ty.kind == "uint" and not a.ty.is_array) else None
         if isinstance(op, ast.Add):
-            return Num(a.lin + b.lin, fl)
+            return Num(a.lin + b.lin, fl, ty=same_u)
         if isinstance(op, ast.Sub):
-            r = Num(a.lin - b.lin, fl)
+            r = Num(a.lin - b.lin, fl, ty=same_u)
             if not fl:
                 self.emit("sub", node, st, a=a, b=b, result=r)
             return r
